@@ -46,6 +46,10 @@ pub fn stream_bytes(s: u64, n: usize, alphabet: u8) -> Vec<u8> {
             0 => out.push(b'!' + (x % 90) as u8),
             1 => out.push(if x % 7 == 0 { b'\n' } else { b'a' + (x % 26) as u8 }),
             2 => out.push(1 + (x % 255) as u8),
+            // (lower-case / upper-case letters: the bytes of two concurrent
+            // writers can be told apart)
+            6 => out.push(b'a' + (x % 26) as u8),
+            7 => out.push(b'A' + (x % 26) as u8),
             4 => {
                 // white-space rich: blanks of every kind next to newlines
                 const WS: [&str; 14] = [
@@ -237,6 +241,48 @@ fn sink_main<S: WriteAll + Read>(env: &mut Env<S>, args: Vec<Field>) -> BFut<'_>
             }
         }
         let msg = sink_summary(&data, s, alphabet);
+        BResult::new(write_out(env, Fd::STDOUT, msg.as_bytes()).await)
+    })
+}
+
+/// `demux SA SB [BUF]` - reads stdin to EOF, takes the lower-case letters as
+/// stream SA (alphabet 6) and everything else as stream SB (alphabet 7),
+/// and prints `A len=<n> bad=<first deviating offset or -1> B len=<n> bad=<...>`:
+/// whatever the interleaving of two writers, each one's bytes arrive in order.
+fn demux_main<S: WriteAll + Read>(env: &mut Env<S>, args: Vec<Field>) -> BFut<'_> {
+    Box::pin(async move {
+        let a = strs(&args);
+        let sa: u64 = a.first().and_then(|s| s.parse().ok()).unwrap_or(0);
+        let sb: u64 = a.get(1).and_then(|s| s.parse().ok()).unwrap_or(0);
+        let b: usize = a.get(2).and_then(|s| s.parse().ok()).unwrap_or(300).max(1);
+        let mut buf = vec![0u8; b];
+        let (mut da, mut db) = (Vec::new(), Vec::new());
+        loop {
+            match read_some(env, &mut buf).await {
+                Ok(0) => break,
+                Ok(n) => {
+                    for x in &buf[..n] {
+                        if x.is_ascii_lowercase() { da.push(*x) } else { db.push(*x) }
+                    }
+                }
+                Err(e) => {
+                    let msg = format!("demux: read error {e}\n");
+                    write_out(env, Fd::STDOUT, msg.as_bytes()).await;
+                    return BResult::new(ExitStatus::FAILURE);
+                }
+            }
+        }
+        let bad = |d: &[u8], s: u64, al: u8| -> i64 {
+            let e = stream_bytes(s, d.len(), al);
+            d.iter().zip(e.iter()).position(|(x, y)| x != y).map_or(-1, |p| p as i64)
+        };
+        let msg = format!(
+            "A len={} bad={} B len={} bad={}\n",
+            da.len(),
+            bad(&da, sa, 6),
+            db.len(),
+            bad(&db, sb, 7)
+        );
         BResult::new(write_out(env, Fd::STDOUT, msg.as_bytes()).await)
     })
 }
@@ -442,6 +488,7 @@ where
         ("recs", Builtin::new(Type::Mandatory, recs_main)),
         ("recsink", Builtin::new(Type::Mandatory, recsink_main)),
         ("tally", Builtin::new(Type::Mandatory, tally_main)),
+        ("demux", Builtin::new(Type::Mandatory, demux_main)),
         ("cat", Builtin::new(Type::Mandatory, cat_main)),
         ("catfd", Builtin::new(Type::Mandatory, catfd_main)),
         ("echo", Builtin::new(Type::Mandatory, echo_main)),
